@@ -237,21 +237,35 @@ def _roundtrip(g, node, label, res, tr, tz):
         res.sample({"tz": tz, "transport": [node.transport, node.alg, node.enc], "claims": _claims_json(claims), "header": header_before})
 
 
+def strict_json_object(payload: bytes) -> bool:
+    """is the octet string a JSON object in the sense of RFC 8259 (UTF-8, no byte order mark, no NaN / Infinity)?"""
+    def no_constant(name):
+        raise ValueError("not JSON: " + name)
+    try:
+        text = payload.decode("utf-8")
+        if text.startswith("\ufeff"):
+            return False
+        return isinstance(json.loads(text, parse_constant=no_constant), dict)
+    except ValueError:
+        return False
+
+
 def _byzantine(g, node, label, res, tr, InvalidPayloadError):
     """validly authenticated payloads that are not a JSON object"""
     from joserfc import jwt
     payload = g.pick([b"[1,2]", b"\"just a string\"", b"7", b"null", b"true", b"1.5", b"[]", b"[{\"sub\":\"a\"}]", b"not json", b"{\"a\":", b"", b"\xff\xfe",
-                      b"{\"sub\":\"a\"} trailing", b"{'sub':'a'}", b" {\"ok\": 1} ", b"{\"dup\":1,\"dup\":2}", b"{\"sub\":\"ok\"}"])
+                      b"{\"sub\":\"a\"} trailing", b"{'sub':'a'}", b" {\"ok\": 1} ", b"{\"dup\":1,\"dup\":2}", b"{\"sub\":\"ok\"}",
+                      # not JSON (RFC 8259): constants JSON does not have; JSON text exchanged between systems is UTF-8 without a byte order mark
+                      b"{\"a\":NaN}", b"{\"a\":Infinity}", b"{\"exp\":-Infinity}", b"{\"a\":[1,{\"b\":NaN}]}",
+                      '{"a":"b"}'.encode("utf-16"), '{"a":"b"}'.encode("utf-16-le"), '{"a":"b"}'.encode("utf-32"), b"\xef\xbb\xbf{\"a\":1}",
+                      b"{\"a\":1e400}", b"{\"n\":-0.0,\"big\":123456789012345678901234567890}"])
     hdr = {"typ": "JWT", "alg": node.alg}
     if node.transport == "jws":
         tok = rjws.make_compact(rjws.compact_json(hdr), payload, node.alg, node.key)
     else:
         hdr["enc"] = node.enc
         tok = rjwe.build("compact", hdr, payload, [rjwe.Rcpt(node.alg, node.key if node.key.kty == "oct" else node.key.public())], g.sub("b"), p2c=3).ser
-    try:
-        is_obj = isinstance(json.loads(payload), dict)
-    except ValueError:
-        is_obj = False
+    is_obj = strict_json_object(payload)
     res.case(label, "byzantine")
     res.fired("byzantine-authenticated-payload:" + ("object" if is_obj else "non-object"))
     repro = {"kind": "byzantine", "transport": node.transport, "alg": node.alg, "enc": node.enc, "key": rk.to_jwk(node.key, True),
@@ -397,10 +411,7 @@ def replay(repro: dict):
                     out.append(("wire:tampered-token-decoded", "decoded"))
                 else:
                     payload = bytes.fromhex(repro["payload"])
-                    try:
-                        is_obj = isinstance(json.loads(payload), dict)
-                    except ValueError:
-                        is_obj = False
+                    is_obj = strict_json_object(payload)
                     if not is_obj:
                         out.append(("byzantine:non-object-claims-returned", repr(got.claims)))
             except InvalidPayloadError:
